@@ -115,8 +115,84 @@ class ReadInputs(FragmentTask):
         ctx.oblige("post.field-count-and-index-passed-through", all(m.get("N_FIELDS") is inp["nf"] and m.get("FIELD_INDEX") is inp["fi"] for m in mp), "P")
 
 
+class OptionWiring(FragmentTask):
+    """The statements of main from the construction of the reader to the allocation of the uniform grid: the reader is built
+    on the requested plotfile with exactly the requested level limit (0 included; None = every level), the field index is the
+    one the reader records for the requested variable, the grid has the grid size of the reader's limit level and the requested
+    data type.  The reader is its class contract (limit_level=None -> finest level, else the value given)."""
+    prop = "C10"
+    reach = "U"
+    qual = WH + "main"
+    first = staticmethod(_src("if args.plotfile is None"))      # everything after the argument parser
+    last = staticmethod(_src("if args.nochecks"))
+    second = staticmethod(_src("data = np.zeros("))
+
+    def call(self, ex, inp):
+        # the fragment, then the allocation statement (first statement of the 'y' branch of the confirmation) in the same frame
+        fv = super().call(ex, inp)
+        try:
+            self.first = self.last = self.second        # instance attributes: shadow the anchors for the second selection
+            return super().call(ex, dict(inp, frame=dict(fv)))
+        finally:
+            del self.first, self.last
+
+    def __init__(self, limit_given):
+        self.limit_given = limit_given
+        self.name = f"whip.main.option-wiring[limit {'given' if limit_given else 'not given'}]"
+
+    def setup(self, ex):
+        ctx = ex.ctx
+        from pyvc.exec import LIBS
+        L = z3.Int("finest_level")
+        lim = z3.Int("limit_option") if self.limit_given else None
+        ctx.assume(L >= 0)
+        if lim is not None:
+            ctx.assume(z3.And(lim >= 0, lim <= L))
+        G = z3.Function("GRIDSIZE", I, I, I)
+        FI = z3.Int("index_of_variable")
+        eff0 = L if lim is None else lim
+        ctx.assume(z3.And(*[G(eff0, d) >= 1 for d in range(3)]))       # RepPC: grid sizes are positive
+        built = []
+        plot = Opaque("plotfile", "path")
+
+        def mk(ex_, args, kw):
+            built.append((list(args), dict(kw)))
+            ll = kw.get("limit_level", args[1] if len(args) > 1 else None)
+            eff = L if ll is None else ll
+            gs = SymSeq(to_z3(L) + 1, lambda lv: Vec([G(to_z3(lv), d) for d in range(3)], "array"), "list")
+            return Record("amr_kitchen.plotfile_cooker.PlotfileCooker", ndims=3, fields={"the_variable": FI, "other": z3.Int("other_index")},
+                          limit_level=eff, max_level=L, grid_sizes=gs)
+        self.contracts = {"amr_kitchen.plotfile_cooker.PlotfileCooker.__new__": mk}
+        LIBS[("humanize", "naturalsize")] = lambda ex_, args, kw: (args[0], "some size")[1]      # a text for the prompt only
+        args = Record("Namespace", plotfile=plot, limit_level=lim, variable="the_variable", dtype="float32", nochecks=True, outfile=None)
+        return {"frame": {"args": args}, "built": built, "L": L, "lim": lim, "G": G, "FI": FI, "plot": plot}
+
+    def post(self, ex, inp, out):
+        ctx = ex.ctx
+        ctx.oblige("raises-nothing", out.kind == "ret", "P", note=str(out.exc) if out.kind != "ret" else "")
+        if out.kind != "ret":
+            return
+        built = [b for b in inp["built"] if not b[1].get("header_only")]
+        ctx.structure("post.one-full-reader-built", len(built) == 1)
+        if len(built) != 1:
+            return
+        a, kw = built[0]
+        ll = kw.get("limit_level", a[1] if len(a) > 1 else None)
+        ctx.oblige("post.reader-opens-the-requested-plotfile", a and a[0] is inp["plot"], "P")
+        if inp["lim"] is None:
+            ctx.oblige("post.no-limit-means-every-level", ll is None or bool(ctx.entails(to_z3(ll) == inp["L"])), "P")
+        else:
+            ctx.oblige("post.reader-gets-the-requested-limit-zero-included", ll is not None and to_z3(ll) == inp["lim"], "P")
+        eff = inp["L"] if inp["lim"] is None else inp["lim"]
+        data = out.value["data"]
+        ctx.oblige("post.grid-has-the-size-of-the-limit-level", zand(*[to_z3(data.shape[d]) == inp["G"](eff, d) for d in range(3)]) if len(data.shape) == 3 else False, "P")
+        ctx.oblige("post.grid-has-the-requested-type", str(data.dtype) in ("float32", "f4"), "P", note=str(data.dtype))
+        ctx.oblige("post.field-index-is-the-readers", out.value["FIELD_INDEX"] is inp["FI"] or to_z3(out.value["FIELD_INDEX"]) == inp["FI"], "P")
+        ctx.oblige("post.field-count-is-the-readers", veq(ctx, out.value["N_FIELDS"], 2), "P")
+
+
 def parent_tasks(tier):
-    return [PaintBox(f) for f in ((1, 2) if tier == "quick" else (1, 2, 4, 8))] + [ReadInputs()]
+    return [PaintBox(f) for f in ((1, 2) if tier == "quick" else (1, 2, 4, 8))] + [ReadInputs(), OptionWiring(True), OptionWiring(False)]
 
 
 def parent_canaries():
@@ -126,7 +202,10 @@ def parent_canaries():
              ["whip.main.paint-one-box[factor=2]"]),
             ("whip: the largest file is left out",
              [(f, "                          'fname':binfiles[i]} for i in read_order]", "                          'fname':binfiles[i]} for i in read_order[1:]]")],
-             ["whip.main.every-file-read-once"])]
+             ["whip.main.every-file-read-once"]),
+            ("whip: a level limit of 0 is taken for 'no limit'",
+             [(f, "pck = PlotfileCooker(args.plotfile, limit_level=args.limit_level)", "pck = PlotfileCooker(args.plotfile, limit_level=args.limit_level or None)")],
+             ["whip.main.option-wiring[limit given]"])]
 
 
 def tasks(tier):
